@@ -64,7 +64,7 @@ RULE = (
     "table-changing step; distinct by canonical JSON of the whole history."
 )
 BUDGET = {
-    "quick": {"cases": 4000, "steps": 12, "shrink": True, "time_cap_s": 300, "shrink_cap_s": 60},
+    "quick": {"cases": 3200, "steps": 12, "shrink": True, "time_cap_s": 300, "shrink_cap_s": 60},
     "thorough": {"cases": 30000, "steps": 30, "shrink": True, "time_cap_s": 2400},
 }
 
@@ -512,6 +512,7 @@ class Runner:
         except Exception:  # noqa: BLE001
             self._peek = self._peek_count = None
         self._sim_batches = []
+        self._sim_candidates = []
         self._spacing_excused = False
 
     def _reset_counters(self):
@@ -545,8 +546,7 @@ class Runner:
             if fired:
                 self.lab("fired:adaptive-update")
         if fired:
-            fires = self._sim_fires(self._sim_batches)
-            self._spacing_excused = fires is None or any("tiny" in f for f in fires)
+            self._spacing_excused = self._tiny_extension_requested()
         if fired and not self.dead and self.tab is not None:
             self._check_coverage()
         if changed:
@@ -554,6 +554,24 @@ class Runner:
         if not self.dead and self.observable and self.has_table():
             self._check_invariants("adaptive" if fired else op, changed)
         return fired
+
+    def _tiny_extension_requested(self):
+        """Did the caller itself ask (through a pending or a current evaluation point a hair outside the old
+        table) for an extension block narrower than requested_gap_rel?  Unknown => True (nothing asserted)."""
+        old = self._tab_before if self._had_before else None
+        if old is None:
+            return False
+        if self._peek is None:
+            return True
+        pts = np.array(list(self._peek) + [float(t) for b in self._sim_candidates for t in np.ravel(b)], dtype=float)
+        if pts.size == 0:
+            return False
+        apc = max(1, int(0.2 * self.N0))
+        for edge, d in ((old.rmin, old.rmin - pts), (old.rmax, pts - old.rmax)):
+            lim = TOLERANCES["requested_gap_rel"] * (1.0 + abs(edge)) * apc
+            if np.any((d > 0) & (d < lim)):
+                return True
+        return False
 
     def _check_coverage(self):
         for pset in self._fire_sets:
@@ -888,6 +906,7 @@ class Runner:
             # already handed to the adaptive update is not fixed by the documentation
             self._sched(b, certain=not (want_err and exc is not None))
         self._sim_batches = batches
+        self._sim_candidates = [np.ravel(xa)]
         if exc is not None:
             if isinstance(exc, ValueError) and want_err and not _exc_through(exc, "_adaptiveInterpolationUpdate"):
                 self.chk("eval-error-mode")
@@ -979,6 +998,12 @@ class Runner:
             if self.table_changes > 0:
                 self.nontrivial = True
         exp, tol, skip, near = self._expect_deriv(tab0, xa, interp, n, dxs)
+        narrow = bool(tab0 is not None and not direct and (tab0.rmax - tab0.rmin) < 5.0 * max(dxs))
+        if narrow and has_out:
+            # the stencil of an outside entry reaches across the whole table to the other side: which
+            # prescription applies to which stencil point is not fixed by the property -> not asserted
+            skip = skip | below | above
+            self.lab("deriv-skip:table-narrower-than-stencil")
         dist = "near" if near.any() else "far"
         if has_out:
             self.lab(f"deriv-dist:{dist}")
@@ -1003,8 +1028,10 @@ class Runner:
             self._sched(b, certain=False, factor=10)
         if sched:
             self._sim_batches = self._deriv_sim_batches(tab0, xa, n, dxs[0], below, above, direct)
+            self._sim_candidates = [np.ravel(xa)] + [stencil_points(xa, n, dx) for dx in set(dxs + [dx_args])]
         if exc is not None:
-            if isinstance(exc, ValueError) and want_err and not _exc_through(exc, "_adaptiveInterpolationUpdate"):
+            if isinstance(exc, ValueError) and (want_err or (narrow and has_out and "ERROR" in (self.lo, self.hi))) \
+                    and not _exc_through(exc, "_adaptiveInterpolationUpdate"):
                 self.chk("deriv-error-mode")
                 self.lab("outcome:ValueError-in-ERROR-mode")
                 self._post_step("derivative", may_fire_op=True)
@@ -1231,6 +1258,7 @@ class Runner:
         # scheduleForInterpolation is public and accumulates regardless of the adaptive flag
         self._sched(np.ravel(xa), certain=self.adaptive)
         self._sim_batches = [np.ravel(xa)]
+        self._sim_candidates = [np.ravel(xa)]
         if exc is not None:
             if _exc_through(exc, "_adaptiveInterpolationUpdate"):
                 self.fail("table-build-exception", self._adaptive_exc_cls(exc, [np.ravel(xa)]),
